@@ -156,6 +156,9 @@ def _subs(tier, prop):
                         ranges={'b0': (0, 3), 'b1': (0, 3)}))
         S.append(mk_sub('F4-fanout-behind-group-path', GROUP_FANOUT, mons, zero=['cs']))
         S.append(mk_sub('F1-P-empty-budget', serial('P', 0), mons))
+        # a processor with resources is offered the next part by its source at the very instant it finishes (its resources
+        # are still reserved then); with a slow consumer the finished part still sits in its output
+        S.append(mk_sub('F5-resource-processor-fed-at-the-finish-instant', serial('P', 2, res={'r': 1}) | {'pools': {'r': 1}}, mons, pre=['c0 == c1', 'c1 >= 1']))
         S.append(mk_sub('F7-buffer-into-batcher-size2', buffer_into_batcher(2), mons, zero=['c0', 'd1'], ranges={'b0': (0, 3), 'b1': (0, 3)}))
     elif prop == 'C03':
         mons = ['wakeup']
@@ -414,6 +417,8 @@ def _subs(tier, prop):
                'horizons': ['H']}
         S.append(mk_sub('scheduler-off-on-off-cyclical', sch, mons, pre=['H < 2 * (d0 + d1 + d2)'], ranges={'H': (0, 6 * L.T)}))
         S.append(mk_sub('F7-batch-backlog-in-buffer', batch_backlog_in_buffer(6, (2, 2, 2)), mons, zero=['cs', 'c0']))
+        S.append(mk_sub('F5-two-resource-kinds-released-together', serial('P', 2, res={'r': 1, 's': 2}) | {'pools': {'r': 1, 's': 3}}, mons,
+                        zero=['cs', 'c0']))
         S.append(mk_sub('F5-pool-created-at-run-time', with_ops(resources2(1), [
             {'k': 'addres', 'res': 'q', 'amount': 'a0', 't': 't0'}]), mons, zero=['cs', 'c0'], ranges={'a0': (1, L.T)}))
         S.append(mk_sub('F5-capacity-change', with_ops(resources2(1), [
@@ -596,6 +601,8 @@ OWN_MONITORS = {'C02': ['census'], 'C03': ['wakeup'], 'C05': ['buffer'], 'C06': 
 
 def _applicable(prop, spec):
     kinds = {d['k'] for d in spec['devices']}
+    if kinds & {'junction', 'psensor', 'osensor', 'sensor', 'cms'}:
+        return False          # asset kinds only the value monitor knows
     if prop == 'C05':
         return 'buffer' in kinds
     if prop == 'C11':
